@@ -50,10 +50,14 @@ def main(argv=None):
     except Exception as e:  # noqa: BLE001
         traceback.print_exc()
         print(f'HARNESS-ERROR property={pid}: evidence invalid: {e}', file=sys.stderr)
+        if n_new:
+            # a broken implementation can also break the coverage counters (e.g. a minimum of 1 not met): the violations already
+            # printed above are what matters
+            return 1
         return 2
     summary = {k: v for k, v in cov.items() if isinstance(v, (int, float, bool, str)) and k not in ('rule', 'explanation')}
     print(f'{pid} tier={a.tier} seed={seed} wall={wall:.1f}s new_violations={n_new} known={n_known} {summary}')
-    if res.get('vacuous'):
+    if res.get('vacuous') and not n_new:
         print(f'HARNESS-ERROR property={pid}: vacuous exploration: {res["vacuous"]}', file=sys.stderr)
         return 2
     return 1 if n_new else 0
